@@ -83,11 +83,12 @@ def reference(e, cs, backend, valtok):
     return out
 
 def entry_for(item, cs, vc, sampler, out, check=True, vals=None):
-    backend, mode, L = item
+    backend, mode, L = item[:3]
+    nv = item[3] if len(item) > 3 else K
     def entry(e):
         for c in vc: e.add(c)
         sq = SQ(e)
-        vs = vals if vals is not None else [z3.BitVec('v%d' % i, 32) for i in range(K)]
+        vs = vals if vals is not None else [z3.BitVec('v%d' % i, 32) for i in range(nv)]
         if mode == 'inline': valtok = [('Dec', v, 'i32') if is_sym(v) else v for v in vs]
         else: valtok = [('PARAM', i) for i in range(len(vs))]
         exp = reference(e, cs, backend, valtok) if check else None
@@ -148,7 +149,7 @@ def render_conc(m, chars):
 def signed32(v): return v - 2**32 if v >= 2**31 else v
 
 def native_req(item, tmpl, vals):
-    backend, mode, L = item
+    backend, mode, L = item[:3]
     ex = ['custv', {'cps': tmpl}, [V('Int', signed32(v)) for v in vals]]
     if mode == 'inject': return {'op': 'inject_expr', 'backend': backend, 'expr': ex}
     return {'op': 'render_expr', 'backend': backend, 'mode': 'inline' if mode == 'inline' else 'params', 'expr': ex}
@@ -158,7 +159,7 @@ class ConcE:
 
 def native_verdict(item, tmpl, vals, r):
     """property on the native output, with the reference run concretely"""
-    backend, mode, L = item
+    backend, mode, L = item[:3]
     try:
         if mode == 'params': exp = reference(ConcE(), tmpl, backend, [('PARAM', i) for i in range(len(vals))])
         else: exp = reference(ConcE(), tmpl, backend, [('VAL', i) for i in range(len(vals))])
@@ -192,7 +193,7 @@ def work(w):
     vs = []
     for k, msg, m, info in viol:
         vs.append({'kind': k, 'msg': msg, 'item': item, 'template': conc(m, cs) if m is not None else None,
-                   'vals': [model_int(m, z3.BitVec('v%d' % i, 32)) for i in range(K)] if m is not None else None})
+                   'vals': [model_int(m, z3.BitVec('v%d' % i, 32)) for i in range(item[3] if len(item) > 3 else K)] if m is not None else None})
     return {'stats': eng.stats, 'executed': eng.executed, 'models_used': eng.models_used, 'violations': vs, 'samples': samples, 'item': list(item)}
 
 def classify(item, tmpl):
@@ -223,6 +224,10 @@ def run(ctx):
                 if mode == 'inject' and L > maxL - 1: continue
                 if quick and L == maxL and (b, mode) not in (('mysql', 'params'), ('postgres', 'params'), ('postgres', 'inline')): continue
                 items.append((b, mode, L))
+    # the same template API with an empty value list: only doubled marks and quoted text may hold a mark (everything else would designate a missing value)
+    for b in BACKENDS:
+        for mode in ('inline', 'params'):
+            for L in range(0, 4): items.append((b, mode, L, 0))
     ctx.bounds = {'template': 'L <= %d arbitrary Unicode scalar values (L <= %d for inject_parameters; quick tier: L = %d only for mysql/params, postgres/params, postgres/inline)' % (maxL, maxL - 1, maxL), 'values': '%d distinct symbolic Int values' % K,
                   'modes': ['inline (to_string)', 'params (build)', 'inject_parameters(build) == inline'], 'backends': list(BACKENDS)}
     ctx.assumptions += ['documented precondition: every placeholder designates an existing value ($n with 1 <= n <= k; at most k positional marks)',
